@@ -405,6 +405,23 @@ def flattenWithPath (cfg : Cfg) (t : PyObj) : Except Err (List (List Key) × Lis
 
 /-! ### the lazy iterator -/
 
+/-- the Custom case of `NextImpl`: validate what the flatten function returned -/
+def iterCustomChildren (co : CustomOut) : Except Err (Option (List PyObj)) :=
+  if co.numOut != 2 && co.numOut != 3 then .error .runtime
+  else match co.children with
+    | Option.none => .error .type_              -- `py::tuple(obj)` on a non-iterable
+    | some cs =>
+      let bad :=
+        if co.numOut == 3 then
+          match co.entries with
+          | .absent | .noneVal => Option.none
+          | .tuple ks => if ks.length != cs.length then some Err.runtime else Option.none
+          | .nonIter => some Err.type_
+        else Option.none
+      match bad with
+      | some e => .error e
+      | Option.none => .ok (some cs)
+
 /-- children of a node in visiting order, as the iterator computes them (`NextImpl`'s switch) -/
 def iterChildren (cfg : Cfg) (sorted : Bool) (x : PyObj) : Except Err (Option (List PyObj)) :=
   match x with
@@ -422,22 +439,7 @@ def iterChildren (cfg : Cfg) (sorted : Bool) (x : PyObj) : Except Err (Option (L
           match x with
           | .user _ _ _ _ => .ok Option.none           -- unregistered user object: a leaf
           | _ => .ok (some xs)                          -- namedtuple / struct sequence
-      | some reg =>
-          let co := customOut reg x
-          if co.numOut != 2 && co.numOut != 3 then .error .runtime
-          else match co.children with
-            | Option.none => .error .type_              -- `py::tuple(obj)` on a non-iterable
-            | some cs =>
-              let bad :=
-                if co.numOut == 3 then
-                  match co.entries with
-                  | .absent | .noneVal => Option.none
-                  | .tuple ks => if ks.length != cs.length then some Err.runtime else Option.none
-                  | .nonIter => some Err.type_
-                else Option.none
-              match bad with
-              | some e => .error e
-              | Option.none => .ok (some cs)
+      | some reg => iterCustomChildren (customOut reg x)
 
 /-- run the agenda to exhaustion: `fuel` bounds the number of pops -/
 def iterRun (cfg : Cfg) (sorted : Bool) : Nat → List (PyObj × Nat) → List PyObj →
